@@ -5,3 +5,6 @@ import BalmProofs.Props.C06
 #print axioms Balm.Impl.inAttrB_iff
 #print axioms Balm.Impl.mem_reachSet
 #print axioms Balm.Impl.judgeForces_sound
+#print axioms Balm.Impl.findDrivers_forces
+#print axioms Balm.Impl.findDrivers_free
+#print axioms Balm.Impl.findDrivers_sound
